@@ -99,10 +99,16 @@ def ident_values_changed(func_args, ident):
 
     for check_var in ident:
         var_pieces = check_var.split(".")
-        if len(var_pieces) < 2 or len(var_pieces) > 3:
+        if len(var_pieces) < 2 or len(var_pieces) > 4 or (len(var_pieces) == 4 and var_pieces[2] != "old"):
             continue
         var_root = f"{var_pieces[0]}.{var_pieces[1]}"
-        if var_root == var_name and (len(var_pieces) == 2 or var_pieces[2] == "old"):
+        if len(var_pieces) == 4:
+            # DOMAIN.name.old.attr: an attribute of the previous value
+            if var_root == var_name and (
+                value != old_value or getattr(value, var_pieces[3], None) != getattr(old_value, var_pieces[3], None)
+            ):
+                return True
+        elif var_root == var_name and (len(var_pieces) == 2 or var_pieces[2] == "old"):
             if value != old_value:
                 return True
         elif len(var_pieces) == 3 and var_root == var_name:
